@@ -71,9 +71,10 @@ theorem mapAll_step (w : W) (g : Conn → Conn) (hg : ∀ c, (g c).id = c.id)
 theorem applyAction_same (w : W) (a : Action) : Same w (applyAction w a).1 := by
   cases a with
   | tick dt => exact ⟨rfl, rfl, rfl, rfl, rfl, rfl, rfl, rfl, rfl, by trx⟩
-  | conn c => exact Same.refl w
+  | conn c => exact ⟨rfl, rfl, rfl, rfl, rfl, rfl, rfl, rfl, rfl, by trx⟩
   | send c t => simp only [applyAction]; split <;> exact Same.refl w
   | close c => simp only [applyAction]; split <;> exact ⟨rfl, rfl, rfl, rfl, rfl, rfl, rfl, rfl, rfl, by trx⟩
+  | reset c => simp only [applyAction]; split <;> exact ⟨rfl, rfl, rfl, rfl, rfl, rfl, rfl, rfl, rfl, by trx⟩
   | cin t => simp only [applyAction]; split <;> exact Same.refl w
   | idle => exact Same.refl w
 
@@ -84,6 +85,7 @@ theorem applyAction_console (w : W) (a : Action) (t : String) (h : IoEv.console 
   | conn c => simp [applyAction] at h
   | send c t' => simp only [applyAction] at h; split at h <;> simp at h
   | close c => simp only [applyAction] at h; split at h <;> simp at h
+  | reset c => simp only [applyAction] at h; split at h <;> simp at h
   | cin t' =>
     simp only [applyAction] at h
     split at h
@@ -142,6 +144,7 @@ theorem applyAction_trace (w : W) (a : Action) : (applyAction w a).1.trace = w.t
   | conn c => rfl
   | send c t => simp only [applyAction]; split <;> rfl
   | close c => simp only [applyAction]; split <;> rfl
+  | reset c => simp only [applyAction]; split <;> rfl
   | cin t => simp only [applyAction]; split <;> rfl
   | idle => rfl
 
@@ -174,20 +177,31 @@ theorem cycleHead_good (n : Nat) (acts : List Action) (w : W) (g : Good w) :
     exact this
   · exact (s3 g2.inv).2.mode
 
+theorem clearBacklog_same (w : W) : Same w (clearBacklog w) := ⟨rfl, rfl, rfl, rfl, rfl, rfl, rfl, rfl, rfl, by trx⟩
+theorem setBacklog_same (w : W) (l : List IoEv) : Same w (setBacklog w l) :=
+  ⟨rfl, rfl, rfl, rfl, rfl, rfl, rfl, rfl, rfl, by trx⟩
+
+theorem pendingEvents_noConsole (w : W) (t : String) : IoEv.console t ∉ pendingEvents w := by
+  unfold pendingEvents
+  intro h
+  have := (List.mem_filter.mp h).2
+  simp [isConnEv] at this
+
 theorem cycleBody_good (S : Scripts) (rh : HookFn) (hrh : HookOK rh) (k : Nat) (w : W) (evs : List IoEv)
     (g : Good w) (hc : ∀ t, IoEv.console t ∈ evs → w.mode = .console) :
     GT w (cycleBody S rh k w evs).1 := by
   unfold cycleBody
-  have g1 : GT w (if evs.isEmpty = true then (w, false) else processIo S rh w evs).1 := by
+  have gc : GT w (clearBacklog w) := GT.of_cstep g (clearBacklog_same w).step.toC
+  have g1 : GT w (if evs.isEmpty = true then (clearBacklog w, false) else processIo S rh (clearBacklog w) evs).1 := by
     split
-    · exact GT.refl g
-    · exact GT.of_cstep g (processIo_cstep S rh hrh w evs (fun t ht => g.console (hc t ht)))
+    · exact gc
+    · exact gc.then (processIo_cstep S rh hrh (clearBacklog w) evs (fun t ht => gc.1.console (hc t ht)))
   revert g1
-  generalize (if evs.isEmpty = true then (w, false) else processIo S rh w evs) = r1
+  generalize (if evs.isEmpty = true then (clearBacklog w, false) else processIo S rh (clearBacklog w) evs) = r1
   intro g1
   simp only []
   split
-  · exact g1.recover
+  · exact (g1.then (setBacklog_same r1.1 _).step.toC).recover
   · have g2 : GT w (commandLoop rh k r1.1).1 := g1.then (commandLoop_step rh hrh k r1.1).toC
     split
     · exact g2.recover
@@ -258,7 +272,11 @@ theorem cycle_good (S : Scripts) (rh : HookFn) (hrh : HookOK rh) (n : Nat) (acts
   · exact (GT.refl g).toC
   · obtain ⟨g1, ht, hc, hm⟩ := cycleHead_good n acts w g
     have hb := cycleBody_good S rh hrh ((slots w).filter Option.isSome).length _ _ g1
-      (fun t ht' => by rw [hm]; exact hc t ht')
+      (fun t ht' => by
+        rw [hm]
+        rcases List.mem_append.mp ht' with h | h
+        · exact absurd h (pendingEvents_noConsole w t)
+        · exact hc t h)
     have h1 : GTC w (cycleHead n acts w).1 [n] :=
       ⟨g1, [Ev.cycle n], ht, ⟨by simp [isCrash], rfl, by simp⟩, rfl⟩
     have := h1.trans hb.toC
@@ -332,8 +350,10 @@ theorem initConsoleUser_users (S : Scripts) (rh : HookFn) (hrh : HookOK rh) (w :
   · rename_i hn; rw [hn] at hi; simp at hi
   · exact ((afterConnect_cstep S rh hrh _) i1).2.alloc hu
 
-theorem startup_good (S : Scripts) (rh : HookFn) (hrh : HookOK rh) (w : W) (f : Fresh w) :
-    GT w (startup S rh w) := by
+/-- backend() up to the loop, seen from the moment `start` has been logged: the state is good and everything else the
+    start-up steps log comes AFTER that event -/
+theorem startup_good_start (S : Scripts) (rh : HookFn) (hrh : HookOK rh) (w : W) (f : Fresh w) :
+    GT (emit w .start) (startup S rh w) := by
   unfold startup
   simp only []
   -- save_context; the initial tick
@@ -347,12 +367,11 @@ theorem startup_good (S : Scripts) (rh : HookFn) (hrh : HookOK rh) (w : W) (f : 
     | none => rfl
     | some l => rw [h] at this; simp at this
   have hm1 : (callHeartBeat rh { (emit w .start) with ctxDepth := 1 }).1.mode = w.mode := r1.mode
-  have t1 : TrExt w (callHeartBeat rh { (emit w .start) with ctxDepth := 1 }).1 :=
-    TrExt.trans (TrExt.one (e := .start) rfl rfl) r1.tr
+  have t1 : TrExt (emit w .start) (callHeartBeat rh { (emit w .start) with ctxDepth := 1 }).1 := r1.tr
   -- whether or not the initial tick left through the recovery point
   have g2 : ∀ v : W, (v = recover (callHeartBeat rh { (emit w .start) with ctxDepth := 1 }).1 ∨
       v = (callHeartBeat rh { (emit w .start) with ctxDepth := 1 }).1) →
-      Inv v ∧ v.users = none ∧ v.ctxDepth = 1 ∧ TrExt w v := by
+      Inv v ∧ v.users = none ∧ v.ctxDepth = 1 ∧ TrExt (emit w .start) v := by
     intro v hv
     cases hv with
     | inl e => rw [e]; exact ⟨i1.ctx_irrel 1, hu1, rfl, t1.trans (TrExt.of_eq rfl)⟩
@@ -376,6 +395,11 @@ theorem startup_good (S : Scripts) (rh : HookFn) (hrh : HookOK rh) (w : W) (f : 
     · exact ⟨⟨i3, fun _ => u3, by rw [r3.ctx]; exact cv⟩, tv.trans r3.tr⟩
   · rename_i hnet
     exact ⟨⟨iv, fun hm => absurd hm hnet, cv⟩, tv⟩
+
+theorem startup_good (S : Scripts) (rh : HookFn) (hrh : HookOK rh) (w : W) (f : Fresh w) :
+    GT w (startup S rh w) :=
+  let g := startup_good_start S rh hrh w f
+  ⟨g.1, (TrExt.one (e := .start) rfl rfl).trans g.2⟩
 
 theorem run_gt (S : Scripts) (w0 : W) (h : List (List Action)) (f : Fresh w0) :
     ∃ m, GTC w0 (run S w0 h) (List.range' 1 m) := by
